@@ -17,7 +17,7 @@ use neurons::tensor::Tensor;
 pub fn meta(_ctx: &Ctx) -> Meta {
     Meta {
         rule: "ALL (N,B,E) with N in 1..6, B in 1..7 (B=1, B not dividing N, B=N, B>N), E in 1..3, plus a 1024->64->2 network with (N,B) in {(32,32),(40,32),(150,32),(70,64)}, plus (N,B) in {(64,64),(65,64),(65,65),(70,128),(130,65),(130,100),(129,64)} x networks {dense-linear on one-hot inputs (sample i touches column i only), dense+bias tanh -> dense, conv -> dense, dense -> feedback[dense]x2 -> dense} x optimizers {SGD, SGDM, Adam, RMSprop} x objectives {MSE, AE}; pairwise different samples; also two consecutive learn() calls on the same network (16 settings x 4 phase pairs). Oracle: reference trainer (consecutive groups in order, per-sample gradients at the pre-step weights summed, one optimizer step per group with step number = epoch, loss = mean over groups of mean per-sample loss) vs learn()'s final weights and returned loss vector. A state is the weight vector after each optimizer step; non-trivial = runs with >= 2 groups or >= 2 samples per group".into(),
-        bound: "N <= 6, B <= 7, E <= 3; complete product".into(),
+        bound: "N <= 6, B <= 7, E <= 3 (thorough: N <= 9, B <= 10, E <= 4); complete product".into(),
         exhaustive: true,
         assumptions: vec![
             "per-sample gradients come from the library's own passes (C01 decides them); the separately created optimizer is the library's (C03 decides it): this check isolates grouping, order, sum-vs-mean, remainder group, step numbers and loss averaging".into(),
@@ -28,7 +28,7 @@ pub fn meta(_ctx: &Ctx) -> Meta {
 
 fn nets() -> Vec<(&'static str, Net)> {
     vec![
-        ("onehot", Net::new(Dims::Flat(6), vec![L::Dense { n: 2, act: Act::Linear, bias: false, drop: None }])),
+        ("onehot", Net::new(Dims::Flat(9), vec![L::Dense { n: 2, act: Act::Linear, bias: false, drop: None }])),
         (
             "mlp",
             Net::new(Dims::Flat(3), vec![L::Dense { n: 4, act: Act::Tanh, bias: true, drop: None }, L::Dense { n: 2, act: Act::Linear, bias: true, drop: None }]),
@@ -356,7 +356,8 @@ pub fn check(seed: u64, case: &Kv, rep: &mut Report) {
     }
 }
 
-pub fn cases() -> Vec<Kv> {
+pub fn cases(thorough: bool) -> Vec<Kv> {
+    let (nmax, bmax, emax) = if thorough { (9usize, 10usize, 4usize) } else { (6usize, 7usize, 3usize) };
     let mut out = Vec::new();
     for (name, _) in nets() {
         if name == "wide" {
@@ -364,9 +365,9 @@ pub fn cases() -> Vec<Kv> {
         }
         for ospec in opts() {
             for o in [Obj::MSE, Obj::AE] {
-                for n in 1..=6usize {
-                    for b in 1..=7usize {
-                        for e in 1..=3usize {
+                for n in 1..=nmax {
+                    for b in 1..=bmax {
+                        for e in 1..=emax {
                             out.push(Kv::new().put("net", name).put("opt", ospec.name()).put("obj", o.name()).put("n", n).put("b", b).put("e", e));
                         }
                     }
@@ -400,7 +401,7 @@ pub fn cases() -> Vec<Kv> {
 }
 
 pub fn run(ctx: &Ctx) -> Report {
-    let cs = cases();
+    let cs = cases(ctx.tier.thorough());
     let seed = ctx.seed;
     let chunks: Vec<&[Kv]> = cs.chunks(32).collect();
     let parts = par_map(&chunks, |_, c| {
